@@ -93,10 +93,14 @@ def concurrent_check(res, prop, tier, harness_src, model, expected_rules, quick_
     ok, broken = C.proof_stage(res, prop, drivers=['ymdriver_' + model])
     broken = ['translator x_kernels: ' + p for p in problems] + broken
     binary = C.build_harness(prop.lower(), lib_kind, [harness_src])
-    trace_file = os.path.join(C.WORK, '%s_%s_traces.txt' % (prop, tier))
+    trace_file = os.path.join(C.WORK, '%s_%s_%d_traces.txt' % (prop, tier, os.getpid()))  # per process: concurrent runs of one check
     args = list(quick_args if tier == 'quick' else thorough_args) + ['--seed', str(C.seed()), '--out', trace_file]
     stats, samples, violations = run_harness(binary, args)
     val = validate(model, trace_file)
+    try:
+        os.remove(trace_file)
+    except OSError:
+        pass
     all_stats = [stats]
     # failing-input search when something no longer checks
     need_search = bool(broken) or (val is not None and val['mismatches'])
